@@ -527,7 +527,8 @@ func (f *frame) applyContract(con *Contract, key string, args []Val, rt *types.T
 		}
 	}
 	// volatile ghost state is forgotten across every contracted call of package code
-	if !con.Stub || len(con.Modifies) > 0 {
+	// (a contract marked `pure` - no modifies clause, checked by its frame obligations - forgets nothing)
+	if (!con.Stub || len(con.Modifies) > 0) && !(con.Pure && len(con.Modifies) == 0) {
 		listed := map[string]bool{}
 		for _, m := range mods {
 			listed[m.arr] = true
